@@ -63,7 +63,8 @@ def generate(rng: random.Random, profile: Optional[Dict[str, Any]] = None) -> Di
         x = gen.pick_input(rng, corp)
         lines = x.split("\n")
         pos = rng.randrange(len(lines) + 1)
-        marker = rng.choice(["# pyrefact: skip_file", "skip_marker = 1  # pyrefact: skip_file", "    # pyrefact: skip_file" if pos else "# pyrefact: skip_file"])
+        marker = rng.choice(["# pyrefact: skip_file", "skip_marker = 1  # pyrefact: skip_file", "    # pyrefact: skip_file" if pos else "# pyrefact: skip_file",
+                             "# flake8: noqa  # pyrefact: skip_file", "skip_marker = 1  # type: ignore  # pyrefact: skip_file", "# generated file, do not edit # pyrefact: skip_file"])
         if rng.random() < 0.3 and lines and lines[min(pos, len(lines) - 1)].strip() and "#" not in lines[min(pos, len(lines) - 1)] and not lines[min(pos, len(lines) - 1)].rstrip().endswith(("\\", '"""', "'''")):
             i = min(pos, len(lines) - 1)
             lines[i] = lines[i] + "  # pyrefact: skip_file"
@@ -91,6 +92,21 @@ def generate(rng: random.Random, profile: Optional[Dict[str, Any]] = None) -> Di
             break
     tree = ast.parse(src)
     stmts, exprs = e1_txn.enumerate_nodes(tree)
+    forced: List[Any] = []
+    if rng.random() < 0.3:
+        # the annotated line is a decorator line (the node's own position starts at the def / class line, the
+        # text that an edit removes starts at the first decorator), and the definition is what gets removed / moved
+        deco = [k for k, st in enumerate(stmts) if getattr(st, "decorator_list", None)]
+        if deco:
+            k = rng.choice(deco)
+            dline = stmts[k].decorator_list[0].lineno - 1
+            lines_ = src.split("\n")
+            if "#" not in lines_[dline]:
+                lines_[dline] += rng.choice(["  # pyrefact: ignore", "  #pyrefact:ignore"])
+                src = "\n".join(lines_)
+                tree = ast.parse(src)
+                stmts, exprs = e1_txn.enumerate_nodes(tree)
+            forced = [rng.choice(["remove", "remove", "replace_stmt", "reemit"]), k]
     n = rng.randint(1, 4)
     actions = []
     ls = e1_txn.line_starts(src)
@@ -107,8 +123,10 @@ def generate(rng: random.Random, profile: Optional[Dict[str, Any]] = None) -> Di
         a = rng.choice(["remove", "remove", "replace_stmt", "replace_expr", "add", "move", "reemit", "reemit"])
         if a == "replace_expr" and not exprs:
             a = "remove"
+        if j == 0 and forced:
+            a = forced[0]
         if a in ("remove", "replace_stmt", "move", "reemit"):
-            i = rng.randrange(len(stmts))
+            i = forced[1] if (j == 0 and forced) else rng.randrange(len(stmts))
             if not free(stmts[i]):
                 continue  # the edits of one call never overlap (as in the real callers)
         if a == "replace_expr":
